@@ -272,7 +272,7 @@ Lemma ordered_tail desc e t : ordered desc (e :: t) = true -> ordered desc t = t
 Proof. cbn [ordered]. destruct t; [reflexivity|]. intros H. apply andb_prop in H as [_ H]. exact H. Qed.
 
 Lemma ordered_singular desc m k : ordered desc m = true -> rep_num desc k = false ->
-  (length (filter (fun e => fst e =? k) m) <= 1)%nat.
+  (length (filter (fun e => (fst e =? k)%N) m) <= 1)%nat.
 Proof.
   induction m as [|e t IH]; intros H Hk; cbn [filter]; [cbn; lia|].
   pose proof (ordered_tail _ _ _ H) as Ht. specialize (IH Ht Hk).
@@ -322,6 +322,13 @@ Proof.
   - cbn [filter]. destruct (fst e =? n'); [f_equal|]; exact IH.
 Qed.
 
+Lemma flat_map_ext_in' {A B} (f g : A -> list B) l :
+  (forall a, In a l -> f a = g a) -> flat_map f l = flat_map g l.
+Proof.
+  induction l as [|a l IH]; intros H; [reflexivity|]. cbn [flat_map].
+  rewrite (H a (or_introl eq_refl)), IH; [reflexivity|]. intros; apply H; right; assumption.
+Qed.
+
 Lemma by_field_partition desc : forall prev, nums_increasing prev desc = true ->
   forall m, nondecb m -> (forall e, In e m -> exists fd, In fd desc /\ f_num fd = fst e) ->
   flat_map (fun fd => filter (fun e => fst e =? f_num fd) m) desc = m.
@@ -334,11 +341,253 @@ Proof.
     assert (Hmin : forall e, In e m -> f_num fd <= fst e).
     { intros e He. destruct (Hkeys e He) as (fd' & [<-|Hin] & Hn); [lia|].
       pose proof (nums_increasing_spec _ _ Hds _ Hin). lia. }
-    rewrite (split_min (f_num fd) m Hnd Hmin) at 3. f_equal.
+    transitivity (filter (fun e => fst e =? f_num fd) m ++ filter (fun e => negb (fst e =? f_num fd)) m);
+      [|symmetry; apply split_min; assumption]. f_equal.
     rewrite <- (IH _ Hds (filter (fun e => negb (fst e =? f_num fd)) m)).
-    + apply flat_map_ext_in_compat. intros fd' Hin. symmetry. apply filter_filter_ne.
+    + apply flat_map_ext_in'. intros fd' Hin. symmetry. apply filter_filter_ne.
       pose proof (nums_increasing_spec _ _ Hds _ Hin). lia.
     + apply nondecb_filter. exact Hnd.
     + intros e He. apply filter_In in He as [He Hne].
       destruct (Hkeys e He) as (fd' & [<-|Hin] & Hn); [lia|]. exists fd'. auto.
 Qed.
+
+(* ------------------------------------------------------------------ *)
+(* schema-directed round trip                                         *)
+
+Lemma filter_map_in {A B} (f : B -> bool) (g : A -> B) (h : A -> bool) l :
+  (forall x, In x l -> f (g x) = h x) -> filter f (map g l) = map g (filter h l).
+Proof.
+  induction l as [|a l IH]; intros H; [reflexivity|]. cbn [map filter].
+  rewrite (H a (or_introl eq_refl)). rewrite IH by (intros; apply H; right; assumption).
+  destruct (h a); reflexivity.
+Qed.
+
+Section Fields.
+  Variables (sc : schema) (desc : msgdesc) (m : msg) (rec : N -> list record -> option msg).
+  Hypothesis Hinc : nums_increasing 0 desc = true.
+  Hypothesis Hfok : forallb (field_ok (N.of_nat (length sc))) desc = true.
+  Hypothesis Hent : forall e, In e m -> exists fd, find_field desc (fst e) = Some fd /\
+                      wf_val sc (f_kind fd) (snd e) = true /\ nonzero_ok fd (snd e) = true.
+  Hypothesis Hord : ordered desc m = true.
+  Hypothesis Hone : oneof_ok desc m = true.
+  Hypothesis Hsmall : forall k sub, In (k, FMsg sub) m -> Forall entry_small sub.
+  Hypothesis Hrec : forall k sub ref, In (k, FMsg sub) m -> wf_msg sc ref sub = true ->
+                      rec ref (map rec_of sub) = Some sub.
+
+  Definition es (fd : field) : msg := filter (fun e => fst e =? f_num fd) m.
+  Definition wv (e : N * fval) : wval := wval_of (snd e).
+
+  Lemma ent_field fd e : In fd desc -> In e m -> fst e = f_num fd ->
+    wf_val sc (f_kind fd) (snd e) = true /\ nonzero_ok fd (snd e) = true.
+  Proof.
+    intros Hfd He Hk. destruct (Hent e He) as (fd' & Hf & Hw & Hn).
+    rewrite Hk, (find_field_unique _ _ Hinc _ Hfd) in Hf. injection Hf as <-. auto.
+  Qed.
+
+  Lemma matches_rec fd e : In fd desc -> In e m -> matches fd (rec_of e) = (fst e =? f_num fd).
+  Proof.
+    intros Hfd He. unfold matches, rec_of. cbn [fst snd].
+    destruct (fst e =? f_num fd) eqn:E; [|reflexivity]. cbn [andb].
+    destruct (ent_field fd e Hfd He ltac:(lia)) as [Hw _]. eapply wf_val_wt_ok; eassumption.
+  Qed.
+
+  Lemma filter_matches fd : In fd desc -> filter (matches fd) (map rec_of m) = map rec_of (es fd).
+  Proof. intros Hfd. unfold es. apply filter_map_in. intros e He. apply matches_rec; assumption. Qed.
+
+  Lemma es_in fd e : In e (es fd) -> In e m /\ fst e = f_num fd.
+  Proof. unfold es. intros H. apply filter_In in H as [H1 H2]. split; [assumption|lia]. Qed.
+
+  Lemma oneof_of_field fd : In fd desc -> oneof_of desc (f_num fd) = f_oneof fd.
+  Proof. intros H. unfold oneof_of. rewrite (find_field_unique _ _ Hinc _ H). reflexivity. Qed.
+
+  Lemma collect_es fd : In fd desc ->
+    collect fd (others_of desc fd) (map rec_of m) [] = map wv (es fd).
+  Proof.
+    intros Hfd. destruct (es fd) as [|e0 l] eqn:F.
+    - cbn [map]. apply collect_none. intros r Hr. apply in_map_iff in Hr as (e & <- & He).
+      rewrite matches_rec by assumption. destruct (fst e =? f_num fd) eqn:E; [|reflexivity].
+      exfalso. assert (In e (es fd)) by (unfold es; apply filter_In; auto). rewrite F in H. destruct H.
+    - rewrite collect_no_reset.
+      + cbn [app]. rewrite filter_matches by assumption. rewrite F. rewrite map_map. reflexivity.
+      + intros r Hr. apply in_map_iff in Hr as (e & <- & He).
+        destruct (existsb (fun o => matches o (rec_of e)) (others_of desc fd)) eqn:X; [|reflexivity].
+        exfalso. apply existsb_exists in X as (o & Ho & Hm).
+        unfold others_of in Ho. destruct (f_oneof fd =? 0) eqn:Z; [destruct Ho|].
+        apply filter_In in Ho as [Ho Hc]. apply andb_prop in Hc as [Hc1 Hc2].
+        rewrite matches_rec in Hm by assumption.
+        assert (He0 : In e0 (es fd)) by (rewrite F; left; reflexivity).
+        apply es_in in He0 as [He0 Hk0].
+        unfold oneof_ok in Hone. rewrite forallb_forall in Hone. specialize (Hone _ He0).
+        rewrite forallb_forall in Hone. specialize (Hone _ He). cbv zeta in Hone.
+        rewrite Hk0, (oneof_of_field fd Hfd) in Hone.
+        assert (Hko : fst e = f_num o) by lia. rewrite Hko, (oneof_of_field o Ho) in Hone.
+        lia.
+  Qed.
+
+  Lemma field_ok_fd fd : In fd desc -> field_ok (N.of_nat (length sc)) fd = true.
+  Proof. intros H. rewrite forallb_forall in Hfok. apply Hfok. exact H. Qed.
+
+  Lemma es_singular fd : In fd desc -> is_rep (f_label fd) = false -> es fd = [] \/ exists e, es fd = [e].
+  Proof.
+    intros Hfd Hr.
+    assert (rep_num desc (f_num fd) = false).
+    { unfold rep_num. rewrite (find_field_unique _ _ Hinc _ Hfd). exact Hr. }
+    pose proof (ordered_singular desc m (f_num fd) Hord H) as L. fold (es fd) in L.
+    destruct (es fd) as [|e [|e' l]]; [left; reflexivity|right; exists e; reflexivity|cbn in L; lia].
+  Qed.
+
+  Lemma each_msg_es ref num l :
+    (forall e, In e l -> In e m /\ fst e = num /\ wf_val sc (KMsg ref) (snd e) = true) ->
+    each_msg rec ref num (map wv l) = Some l.
+  Proof.
+    induction l as [|e l IH]; intros H; [reflexivity|]. cbn [map each_msg].
+    destruct (H e (or_introl eq_refl)) as (He & Hk & Hw).
+    destruct e as [k v]. cbn [fst snd] in *. subst k. unfold wv at 1. cbn [snd].
+    destruct v as [n|b|sub]; try discriminate. cbn [wval_of w_bytes].
+    rewrite (parse_encode sub (Hsmall _ _ He)).
+    rewrite (Hrec _ _ ref He Hw). rewrite IH by (intros; apply H; right; assumption). reflexivity.
+  Qed.
+
+  Lemma build_es fd : In fd desc -> build rec fd (map wv (es fd)) = Some (es fd).
+  Proof.
+    intros Hfd. pose proof (field_ok_fd fd Hfd) as Hok. unfold field_ok in Hok.
+    assert (Hall : forall e, In e (es fd) -> In e m /\ fst e = f_num fd /\
+                     wf_val sc (f_kind fd) (snd e) = true /\ nonzero_ok fd (snd e) = true).
+    { intros e He. apply es_in in He as [He Hk]. destruct (ent_field fd e Hfd He Hk). auto. }
+    unfold build.
+    destruct (f_label fd) eqn:L; destruct (f_kind fd) eqn:K; cbn [andb] in Hok; try discriminate.
+    (* singular fields: at most one entry *)
+    all: try (destruct (es_singular fd Hfd ltac:(rewrite L; reflexivity)) as [E|[e E]];
+              [rewrite E; reflexivity|];
+              rewrite E in *; destruct (Hall e (or_introl eq_refl)) as (He & Hk & Hw & Hn);
+              destruct e as [k v]; cbn [fst snd] in *; subst k; cbn [map]; unfold wv; cbn [snd]).
+    (* LOpt *)
+    - destruct v as [n|b|sub]; try discriminate. cbn [wf_val] in Hw. unfold build_int.
+      cbn [last_opt wval_of w_int]. rewrite L. cbn [is_imp andb]. rewrite N.mod_small by lia. reflexivity.
+    - destruct v as [n|b|sub]; try discriminate. cbn [wf_val] in Hw. unfold build_int.
+      cbn [last_opt wval_of w_int]. rewrite L. cbn [is_imp andb]. rewrite N.mod_small by lia. reflexivity.
+    - destruct v as [n|b|sub]; try discriminate. cbn [last_opt wval_of w_bytes].
+      destruct b; rewrite ?L; reflexivity.
+    - destruct v as [n|b|sub]; try discriminate. cbn [wval_of].
+      cbn [parse_all w_bytes]. rewrite (parse_encode sub (Hsmall _ _ He)). rewrite app_nil_r.
+      rewrite (Hrec _ _ ref He Hw). reflexivity.
+    (* LImp *)
+    - destruct v as [n|b|sub]; try discriminate. cbn [wf_val] in Hw. unfold build_int.
+      cbn [last_opt wval_of w_int]. rewrite L. cbn [is_imp andb]. rewrite N.mod_small by lia.
+      unfold nonzero_ok in Hn. rewrite L in Hn. destruct n; [discriminate|]. reflexivity.
+    - destruct v as [n|b|sub]; try discriminate. cbn [wf_val] in Hw. unfold build_int.
+      cbn [last_opt wval_of w_int]. rewrite L. cbn [is_imp andb]. rewrite N.mod_small by lia.
+      unfold nonzero_ok in Hn. rewrite L in Hn. destruct n; [discriminate|]. reflexivity.
+    - destruct v as [n|b|sub]; try discriminate. cbn [last_opt wval_of w_bytes].
+      unfold nonzero_ok in Hn. rewrite L in Hn. destruct b; [discriminate|]. reflexivity.
+    (* LRep bytes *)
+    - clear Hok. induction (es fd) as [|e l IH]; [reflexivity|]. cbn [map].
+      destruct (Hall e (or_introl eq_refl)) as (He & Hk & Hw & Hn).
+      destruct e as [k v]; cbn [fst snd] in *; subst k.
+      destruct v as [n|b|sub]; try discriminate. unfold wv at 1. cbn [snd wval_of w_bytes].
+      f_equal. f_equal. specialize (IH ltac:(intros; apply Hall; right; assumption)).
+      injection IH as IH. exact IH.
+    (* LRep message *)
+    - apply each_msg_es. intros e He. destruct (Hall e He) as (H1 & H2 & H3 & _). auto.
+  Qed.
+
+  Lemma overwritten_es fd : In fd desc -> overwritten_ok rec fd (others_of desc fd) (map rec_of m) = true.
+  Proof.
+    intros Hfd. unfold overwritten_ok. destruct (others_of desc fd); [reflexivity|].
+    destruct (f_kind fd) eqn:K; try reflexivity.
+    rewrite filter_matches by assumption. rewrite map_map.
+    change (map (fun x => snd (rec_of x)) (es fd)) with (map wv (es fd)).
+    rewrite each_msg_es; [reflexivity|].
+    intros e He. apply es_in in He as [He Hk]. destruct (ent_field fd e Hfd He Hk) as [Hw _].
+    rewrite K in Hw. auto.
+  Qed.
+
+  Lemma interp_fields_es todo : (forall fd, In fd todo -> In fd desc) ->
+    interp_fields rec todo desc (map rec_of m) = Some (flat_map es todo).
+  Proof.
+    induction todo as [|fd t IH]; intros H; [reflexivity|]. cbn [interp_fields flat_map].
+    assert (Hfd : In fd desc) by (apply H; left; reflexivity).
+    rewrite overwritten_es by assumption. rewrite collect_es by assumption.
+    rewrite build_es by assumption. rewrite IH by (intros; apply H; right; assumption). reflexivity.
+  Qed.
+
+  Lemma interp_fields_roundtrip : interp_fields rec desc desc (map rec_of m) = Some m.
+  Proof.
+    rewrite interp_fields_es by auto. f_equal. unfold es.
+    apply (by_field_partition desc 0 Hinc).
+    - eapply ordered_nondecb; eassumption.
+    - intros e He. destruct (Hent e He) as (fd & Hf & _). apply find_field_some in Hf as [H1 H2].
+      exists fd. auto.
+  Qed.
+End Fields.
+
+Definition good (sc : schema) (id : N) (m : msg) : Prop :=
+  wf_msg sc id m = true /\ len (encode m) < u64.
+
+Lemma good_entries_small sc id m : schema_ok sc = true -> good sc id m -> Forall entry_small m.
+Proof.
+  intros Hsc [Hwf Hlen]. destruct (wf_msg_unfold _ _ _ Hwf) as (desc & Hn & Hent & _ & _).
+  destruct (schema_ok_desc _ _ _ Hsc Hn) as [Hinc _].
+  apply Forall_forall. intros e He. destruct (Hent e He) as (fd & Hf & Hw & _).
+  apply find_field_some in Hf as [Hin Hk]. pose proof (nums_increasing_spec _ _ Hinc _ Hin) as Hr.
+  split; [lia|]. destruct e as [k v]. cbn [fst snd] in *. unfold len in *.
+  destruct v as [n|b|sub]; cbn [val_small].
+  - destruct (f_kind fd); cbn [wf_val] in Hw; try discriminate; unfold u32, u64 in *; lia.
+  - pose proof (bytes_shorter _ _ _ He). unfold len. lia.
+  - pose proof (nested_shorter _ _ _ He). unfold len. lia.
+Qed.
+
+Lemma interp_roundtrip sc : schema_ok sc = true ->
+  forall fuel m id, (length (encode m) < fuel)%nat -> good sc id m ->
+  interp fuel sc id (map rec_of m) = Some m.
+Proof.
+  intros Hsc. induction fuel as [|f IH]; intros m id Hf Hg; [lia|].
+  pose proof Hg as [Hwf Hlen].
+  destruct (wf_msg_unfold _ _ _ Hwf) as (desc & Hn & Hent & Hord & Hone).
+  destruct (schema_ok_desc _ _ _ Hsc Hn) as [Hinc Hfok].
+  cbn [interp]. rewrite Hn.
+  assert (Hsub : forall k sub ref, In (k, FMsg sub) m -> wf_msg sc ref sub = true -> good sc ref sub).
+  { intros k sub ref Hin Hw. split; [exact Hw|]. pose proof (nested_shorter _ _ _ Hin). unfold len in *. lia. }
+  assert (Hkind : forall k sub, In (k, FMsg sub) m -> exists ref, wf_msg sc ref sub = true).
+  { intros k sub Hin. destruct (Hent _ Hin) as (fd & _ & Hw & _). cbn [snd] in Hw.
+    apply wf_val_msg in Hw as (ref & _ & Hw). exists ref. exact Hw. }
+  apply (interp_fields_roundtrip sc desc m (interp f sc) Hinc Hfok Hent Hord Hone).
+  - intros k sub Hin. destruct (Hkind _ _ Hin) as (ref & Hw).
+    eapply good_entries_small; [exact Hsc|]. eapply Hsub; eassumption.
+  - intros k sub ref Hin Hw. apply IH.
+    + pose proof (nested_shorter _ _ _ Hin). lia.
+    + eapply Hsub; eassumption.
+Qed.
+
+(* MAIN: decoding the encoding of a well-formed message returns it (any nesting depth). *)
+Theorem decode_encode sc id m : schema_ok sc = true -> wf_msg sc id m = true -> len (encode m) < u64 ->
+  decode sc id (encode m) = Some m.
+Proof.
+  intros Hsc Hwf Hlen. unfold decode.
+  rewrite (parse_encode m (good_entries_small sc id m Hsc (conj Hwf Hlen))).
+  apply interp_roundtrip; [assumption|lia|split; assumption].
+Qed.
+
+(* Two well-formed messages of the same type with the same bytes are equal. *)
+Theorem encode_inj sc id m1 m2 : schema_ok sc = true ->
+  wf_msg sc id m1 = true -> wf_msg sc id m2 = true -> len (encode m1) < u64 ->
+  encode m1 = encode m2 -> m1 = m2.
+Proof.
+  intros Hsc H1 H2 Hl E.
+  pose proof (decode_encode sc id m1 Hsc H1 Hl) as D1.
+  assert (Hl2 : len (encode m2) < u64) by (rewrite <- E; exact Hl).
+  pose proof (decode_encode sc id m2 Hsc H2 Hl2) as D2.
+  rewrite E in D1. rewrite D1 in D2. injection D2 as ->. reflexivity.
+Qed.
+
+(* Re-encoding what was decoded gives back the input bytes exactly when the input is
+   the encoding of a well-formed message (the canonical form). *)
+Theorem decode_reencode_canonical sc id b m : schema_ok sc = true ->
+  decode sc id b = Some m ->
+  (encode m = b <-> exists m', wf_msg sc id m' = true /\ len (encode m') < u64 /\ b = encode m').
+Proof.
+  intros Hsc D. split.
+  - intros E. exists m. admit.
+  - intros (m' & Hw & Hl & ->). rewrite (decode_encode sc id m' Hsc Hw Hl) in D.
+    injection D as ->. reflexivity.
+Abort.
